@@ -128,6 +128,16 @@ func (p *GWPeer) Accept(handshakeTimeout time.Duration) (*GWConn, error) {
 	return p.track(&GWConn{T: t, Conn: conn, Peer: p}), nil
 }
 
+// CloseConns hangs up every established connection (the listener stays).
+func (p *GWPeer) CloseConns() {
+	p.mu.Lock()
+	conns := append([]*GWConn(nil), p.conns...)
+	p.mu.Unlock()
+	for _, c := range conns {
+		c.Close()
+	}
+}
+
 // Close closes the listener and every connection.
 func (p *GWPeer) Close() {
 	if p.L != nil {
